@@ -67,7 +67,7 @@ func (s *P2PStore[H]) Get(ctx context.Context, hash goheader.Hash) (H, error) {
 func (s *P2PStore[H]) GetRangeByHeight(ctx context.Context, from H, to uint64) ([]H, error) {
 	return nil, errNotFound
 }
-func (s *P2PStore[H]) Init(context.Context, H) error                  { return nil }
+func (s *P2PStore[H]) Init(context.Context, H) error                    { return nil }
 func (s *P2PStore[H]) Has(context.Context, goheader.Hash) (bool, error) { return false, nil }
 func (s *P2PStore[H]) HasAt(ctx context.Context, h uint64) bool {
 	_, err := s.GetByHeight(ctx, h)
